@@ -117,8 +117,15 @@ def decField (j : Json) : P Field := do
   pure { name := ← str (← key j "name"), ty := ← decFTy (← key j "ty"),
          unique := ← jbool (← key j "unique"), default := d }
 
-def decTSpec (j : Json) : P TSpec := do
+def decTBase (j : Json) : P TBase := do
   pure { name := ← str (← key j "name"), fields := ← (← arr (← key j "fields")).mapM decField }
+
+def decTSpec (j : Json) : P TSpec := do
+  let anc ← match keyOpt j "ancestors" with
+    | some a => (← arr a).mapM decTBase
+    | none => pure []
+  pure { name := ← str (← key j "name"), fields := ← (← arr (← key j "fields")).mapM decField,
+         ancestors := anc }
 
 def encObj (o : Obj) : Json :=
   Json.mkObj [("obj", .str o.tspec.name),
@@ -171,11 +178,12 @@ def decSpec (j : Json) : P Spec := do
       | _, some t => (decTSpec t).map Ty.obj
       | _, _ => fail
     pure ((← str (← key s "name")), ty, (← jbool (← key s "setOf")), (← key s "default"))
+  let types ← (← arr (← key j "types")).mapM decTSpec
   let sp0 : Spec := { settings := pre.map fun (n, ty, so, _) =>
-    { name := n, ty := ty, setOf := so, default := .sc .none } }
+    { name := n, ty := ty, setOf := so, default := .sc .none }, types := types }
   let settings ← pre.mapM fun (n, ty, so, d) => do
     pure ({ name := n, ty := ty, setOf := so, default := ← decVal sp0 d } : Setting)
-  pure { settings := settings }
+  pure { settings := settings, types := types }
 
 def decOp (j : Json) : P Op := do
   match ← arr j with
